@@ -75,12 +75,13 @@ class ControlEndpointEnv:
     """The real USBControlEndpoint + its environment + the spec-side ghost of the control transfer.
     Shared by the C10, C07 and C08 contracts."""
 
-    def __init__(self, c, handlers="standard", ep=0, extra_handlers=(), skiplist=(), foreign_setup_tokens=True):
+    def __init__(self, c, handlers="standard", ep=0, extra_handlers=(), skiplist=(), foreign_setup_tokens=True,
+                 descriptors=None):
         self.c, self.ep = c, ep
         u = self.utmi = UTMIInterface()
         ce = self.ce = USBControlEndpoint(utmi=u, endpoint_number=ep)
         if handlers in ("standard", "std_skip"):
-            ce.add_standard_request_handlers(small_descriptors(), skiplist=skiplist)
+            ce.add_standard_request_handlers(descriptors or small_descriptors(), skiplist=skiplist)
         for h in extra_handlers:
             ce.add_request_handler(h)
         i = ce.interface
@@ -150,17 +151,27 @@ class ControlEndpointEnv:
             c.require("setup_tokens_target_this_endpoint", z3.Implies(z3.And(new_token, self.is_setup), self.ep0),
                       why="scope: this property quantifies over setup packets sent to the control endpoint; SETUP tokens "
                           "addressed to other endpoint numbers are the subject of C07 (and C06), where they are not assumed away")
-        # Two different packets cannot complete in the same cycle (all detectors watch one UTMI byte stream and a packet is
-        # at least two cycles long): a token strobe never coincides with the completion of a data packet in the setup
-        # decoder, with the decoder's `received` strobe that follows it one cycle later, or with a handshake strobe.
-        c.require("token_not_with_setup_data_packet", z3.Implies(new_token, z3.And(z3.Not(self.new_packet), z3.Not(self.received))),
-                  why="a token packet cannot end in the cycle in which (or the cycle after) a DATA packet ends: packets on one "
-                      "UTMI receive stream are separated by at least one idle cycle and are at least two cycles long")
+        # ---- the token detector, the handshake detector and the setup decoder's deserializer all watch the same UTMI
+        #      receive stream.  A strobe of the token / handshake detector is raised in the cycle after its packet ended,
+        #      so the line was idle in the previous cycle; two packets cannot end in the same cycle.
+        rx_active, rx_valid = I["rx_active"] == 1, I["rx_valid"] == 1
+        prev_active = self.prev_active = c.ghost("prev_active", 1, init=0)
+        c.set_next(prev_active, I["rx_active"])
+        c.require("utmi_wf", z3.Implies(rx_valid, z3.And(rx_active, prev_active == 1)),
+                  why="UTMI receive protocol: rx_valid only while rx_active, never in the first rx_active cycle (as in C01/C04)")
         hs_any = z3.Or(*[I["hin_" + n] == 1 for n in ("ack", "nak", "stall", "nyet")])
         self.hs_any = hs_any
-        c.require("handshake_not_with_setup_data_packet", z3.Implies(hs_any, z3.And(z3.Not(self.new_packet), z3.Not(self.received))),
-                  why="a handshake packet cannot end in the cycle in which (or the cycle after) a DATA packet ends (same reason)")
-
+        c.require("detector_strobes_follow_end_of_packet", z3.Implies(z3.Or(new_token, hs_any), prev_active == 0),
+                  why="token / handshake strobes are raised the cycle after the packet ended (C01, C04): the line was idle in "
+                      "the previous cycle")
+        c.require("one_packet_one_strobe", z3.And(z3.Not(z3.And(new_token, hs_any)),
+                                                  z3.Implies(z3.Or(new_token, hs_any), z3.And(z3.Not(self.new_packet), z3.Not(self.received)))),
+                  why="a packet is either a token, a handshake or a data packet; and a token/handshake packet cannot end in the "
+                      "cycle in which (or the cycle after) a DATA packet ends: packets on one UTMI stream are at least two cycles "
+                      "long and separated by an idle cycle")
+        c.require("response_window_after_token", z3.Implies(z3.Or(self.rfr, I["rx_rfr"] == 1), z3.Not(new_token)),
+                  why="ready_for_response is raised an inter-packet delay (>= 1 cycle) after the token strobe (USBTokenDetector); "
+                      "the receiver's rx_ready_for_response an inter-packet delay after a DATA packet, never with a token strobe")
         # ---- spec-side control-transfer stage (USB 2.0 §8.5.3), advanced only by events for THIS endpoint
         self.setup_token = z3.And(new_token, self.is_setup, self.ep0)
         self.rcv = z3.And(self.received, self.ep0)     # a SETUP transaction for this endpoint has been decoded
@@ -198,6 +209,54 @@ class ControlEndpointEnv:
 
     def handler_fsm(self):
         return self.ts.fsm("StandardRequestHandler.fsm_state")
+
+    def transfer_invariants(self):
+        """(StandardRequestHandler configurations; used by C07 and C08)  Spec-side history `data_asked`, the PHY-progress
+        assumption, and the part of the abstraction map that ties the current request to the stage and the handler's FSM
+        and stream generators to the current transfer."""
+        c, ts, stage = self.c, self.ts, self.stage
+        h = self.handler_fsm()
+        tx = self.tx_fsm = ts.fsm("StandardRequestHandler.transmitter.fsm_state")
+        gd = self.gd_fsm = ts.fsm("StandardRequestHandler.get_descriptor.fsm_state")
+        current = z3.Not(self.received)
+        std = self.f_type == TYPE_STANDARD
+        # a data-stage IN token of the current transfer has been answerable
+        data_asked = self.data_asked = c.ghost("data_asked", 1, init=0)
+        c.set_next(data_asked, z3.If(self.received, bvc(0, 1), z3.If(self.data_due, bvc(1, 1), data_asked)))
+        c.require("no_transmission_pending_at_setup_token",
+                  z3.Implies(self.setup_token, z3.And(tx.is_("IDLE"), gd.is_("IDLE"))),
+                  why="half-duplex bus + PHY progress: the host cannot deliver the next SETUP token before the PHY has drained the "
+                      "packet the endpoint was sending (tx.ready fairness is not expressible as a one-step input constraint)")
+        in_with_data = self.in_with_data = z3.And(self.f_is_in, self.f_length != 0)
+        out_with_data = z3.And(z3.Not(self.f_is_in), self.f_length != 0)
+        c.inv("data_in_stage_request", z3.Implies(stage == ST_DATA_IN, in_with_data))
+        c.inv("data_out_stage_request", z3.Implies(stage == ST_DATA_OUT, out_with_data))
+        c.inv("status_out_stage_request", z3.Implies(stage == ST_STATUS_OUT, in_with_data))
+        c.inv("status_in_stage_request", z3.Implies(stage == ST_STATUS_IN, z3.Not(in_with_data)))
+        c.inv("data_asked_only_in_transfers_with_in_data_stage",
+              z3.Implies(z3.And(data_asked == 1, current),
+                         z3.And(in_with_data, z3.Or(stage == ST_DATA_IN, stage == ST_STATUS_OUT, stage == ST_SETUP))))
+        c.inv("data_asked_implies_answered", z3.Implies(data_asked == 1, self.answered == 1))
+        c.inv("handler_fsm_legal", h.legal())
+        c.inv("tx_fsm_legal", tx.legal())
+        c.inv("gd_fsm_legal", gd.legal())
+        c.inv("handler_serves_current_request", z3.Implies(z3.And(current, std), z3.Or(h.is_("IDLE"), handler_state_for(self, h))))
+        # the handler's stream generators only run when a data-stage IN token of the current transfer asked for data
+        c.inv("generators_idle_in_setup_stage", z3.Implies(stage == ST_SETUP, z3.And(tx.is_("IDLE"), gd.is_("IDLE"))))
+        c.inv("generators_run_only_when_asked", z3.Implies(z3.Or(z3.Not(tx.is_("IDLE")), z3.Not(gd.is_("IDLE"))), data_asked == 1))
+
+
+DISPATCH = {REQ_GET_STATUS: "GET_STATUS", REQ_CLEAR_FEATURE: "CLEAR_FEATURE", REQ_SET_ADDRESS: "SET_ADDRESS",
+            REQ_SET_CONFIGURATION: "SET_CONFIGURATION", REQ_GET_DESCRIPTOR: "GET_DESCRIPTOR",
+            REQ_GET_CONFIGURATION: "GET_CONFIGURATION"}
+
+
+def handler_state_for(env, h):
+    """spec: which StandardRequestHandler state serves the current (standard) request"""
+    e = h.is_("UNHANDLED")
+    for req, name in DISPATCH.items():
+        e = z3.If(env.f_request == req, h.is_(name), e)
+    return e
 
 
 def unsupported_standard(env):
